@@ -41,7 +41,9 @@ impl<T> serde::Serialize for SerializablePhantom<T> {
     where
         S: serde::Serializer,
     {
-        serializer.serialize_unit_struct(std::any::type_name::<T>())
+        // The type name is not a valid identifier for all formats (e.g. RON), so it is serialized
+        // as a value and not as the name of a struct.
+        serializer.serialize_newtype_struct("Type", std::any::type_name::<T>())
     }
 }
 
